@@ -12,7 +12,7 @@ from syn_gen import *
 from gen import Gen, VARIANT_WORDS, RULES
 import l2
 
-NEEDS = ("runner",)
+NEEDS = ("runner", "cli")
 TRUSTED = [
     "binding semantics of the six target languages as written in TsV/Lemmas/C02_*.lean (`wire` functions: which "
     "declaration is a case, which string it is serialised as, where a tag / content key is printed) and, on the "
@@ -748,6 +748,38 @@ def thorough(check, per_file=24, chunk=1920):
     check.exhaustive = True
 
 
+ENUM_V1 = """#[typeshare]
+#[serde(rename_all = "SCREAMING_SNAKE_CASE")]
+pub enum Signal { HeartbeatAcknowledged, ConnectionClosedByPeer, Retry, Timeout, Unknown }
+
+#[typeshare]
+#[serde(tag = "messageKind", content = "messagePayload", rename_all = "kebab-case")]
+pub enum Message { ConnectionClosedByPeer { reason_text: String }, Ping(u32), Quit }
+"""
+ENUM_V2 = """#[typeshare]
+#[serde(rename_all = "lowercase")]
+pub enum Signal { Ack, Closed, Retry }
+
+#[typeshare]
+#[serde(tag = "k", content = "p")]
+pub enum Message { Closed { why: String }, Ping(u32), Quit }
+"""
+
+
+def on_disk_part(check):
+    """the definitions a user gets are the file the binary leaves behind: over a destination that already holds an earlier (longer,
+    equally long, shorter) output the file must end up as after a run into a fresh path - no variant, key or case of the earlier
+    version may survive"""
+    for lang in LANGS:
+        for now, before in ((ENUM_V2, ENUM_V1), (ENUM_V1, ENUM_V2)):
+            prob = dirty_destination(check, "enums", lang, {"src/lib.rs": now}, earlier_sources={"src/lib.rs": before})
+            if prob:
+                check.violation("%s: written over an existing file (%s) the output is not what a fresh run writes: the enum definitions "
+                                "on disk mix two versions of the program" % (lang, prob["state"]), case=prob, impl=prob["file_after_run"],
+                                model=prob["fresh_run"], failing_input=True)
+                return
+
+
 def run(check):
     rng = check.rng
     check.nontrivial = Counted()
@@ -773,6 +805,8 @@ def run(check):
         check.notes.append("%d of %d requests were rejected by implementation and model alike" % (stats["rejected"], stats["cases"]))
     if check.thorough and not check.violations:
         thorough(check)
+    if not check.violations:
+        on_disk_part(check)
     check.assumptions += [
         "convert_case's snake-casing (Python member names) is external: taken from the real crate through the runner",
         "an enum whose variants share a *wire* name (possible through serde(rename)) is inside the scope; the property "
